@@ -106,3 +106,16 @@ PROPS['C06'] = dict(
     known_keys={'stuck_after_arrival': ['activity', 'cause']},
     trusted_base=['oracle `mid` (h3 snapping inside point_along_link) and `gc` are arbitrary functions in the theorems; their answers are recorded from the real h3 calls in every correspondence case'],
 )
+
+import eng_c12
+PROPS['C12'] = dict(
+    props_file='Props/C12.v', kernels=[],
+    engines=[eng_c12.engine], extended=[eng_c12.engine], replayers=[eng_c12.replayer],
+    rule='eng_c12: seeded simulation states (0-7 vehicles in mixed activities / charge levels / shifts / fleets, 0-7 requests some already assigned, co-located entities for ties, three dispatcher configurations) given to the real Dispatcher; non-trivial = at least 2 vehicles and 2 requests',
+    trusted_base=['scipy.optimize.linear_sum_assignment (oracle; its answer is validated per instance by the Coq-verified certificate checker)',
+                  'harness Hungarian implementation (only supplies candidate potentials; a wrong potential makes the verified checker reject, never accept)'],
+)
+# the dispatcher clauses of C10 / C17 / C20 are decided by the same engine, filtered to their kinds
+for _p in ('C10', 'C17', 'C20'):
+    PROPS[_p].setdefault('engines', []).append(eng_c12.engine)
+    PROPS[_p].setdefault('replayers', []).append(eng_c12.replayer)
